@@ -5,6 +5,7 @@
   The file-server implementation `impl` is universally quantified everywhere.
 -/
 import G9Proofs.Lemmas.KindInv
+import G9Proofs.Lemmas.Users
 namespace G9.C04
 open G9 G9.Srv
 
@@ -334,5 +335,88 @@ theorem destroyed_exactly_once (cfg : Cfg) (impl : Impl) (c : Conn) (t : Msg) (h
       simp only [decide_eq_false_iff_not]
       exact a3 hc
 
+
+
+/-! ### the user a fid is bound to -/
+
+theorem valid_iff_bound (fs : Fids) (h : RefsPos fs) (k : UInt32) :
+    valid fs k = (userAt fs k).isSome := by
+  rw [valid_iff_lookup fs h k]
+  unfold userAt
+  cases lookup fs k <;> rfl
+
+/-- One request of any kind — failed, partial, unrelated, or on the fid itself — whatever the
+    implementation answers: a fid that is still valid afterwards is bound to the user it was
+    bound to before. -/
+theorem user_binding_stable (cfg : Cfg) (impl : Impl) (c : Conn) (t : Msg) (hwf : WF c.fids)
+    (k : UInt32) (u : Nat) (hb : userAt c.fids k = some u)
+    (hv : valid (step cfg impl c t).1.fids k = true) :
+    userAt (step cfg impl c t).1.fids k = some u := by
+  rcases step_user cfg impl c t k u hb with h | h
+  · rw [valid_iff_bound _ (step_valid cfg impl c t hwf).1.pos, h] at hv
+    cases hv
+  · exact h
+
+/-- the fid stays valid after every request of a history -/
+def validThroughout (cfg : Cfg) (c : Conn) (k : UInt32) : List (Msg × Impl) → Prop
+  | [] => True
+  | (t, impl) :: rest =>
+    valid (step cfg impl c t).1.fids k = true ∧ validThroughout cfg (step cfg impl c t).1 k rest
+
+/-- …and so over any history, of any length: as long as the fid stays valid it stays bound to
+    the same user. -/
+theorem user_binding_history (cfg : Cfg) (hs : List (Msg × Impl)) (c : Conn) (hwf : WF c.fids)
+    (k : UInt32) (u : Nat) (hb : userAt c.fids k = some u) (hv : validThroughout cfg c k hs) :
+    userAt (run cfg c hs).1.fids k = some u := by
+  induction hs generalizing c with
+  | nil => exact hb
+  | cons p hs ih =>
+    obtain ⟨t, impl⟩ := p
+    obtain ⟨hv1, hv2⟩ := hv
+    have h1 := user_binding_stable cfg impl c t hwf k u hb hv1
+    exact ih (step cfg impl c t).1 (step_valid cfg impl c t hwf).1 h1 hv2
+
+/-- Who a new fid is bound to: a fid that was not valid and is valid after a request was bound
+    by that request — by a Tauth or Tattach naming it, to the user the request names; by a Twalk
+    to it, to the user of the fid walked from.  No other request binds a fid, and none binds it
+    to anyone else. -/
+theorem new_fid_bound_by_request (cfg : Cfg) (impl : Impl) (c : Conn) (t : Msg) (hwf : WF c.fids)
+    (k : UInt32) (u : Nat) (h0 : valid c.fids k = false)
+    (h1 : userAt (step cfg impl c t).1.fids k = some u) : NewBy cfg c t k u := by
+  have hn : userAt c.fids k = none := by
+    rw [valid_iff_bound _ hwf.pos] at h0
+    cases h : userAt c.fids k with
+    | none => rfl
+    | some _ => rw [h] at h0; cases h0
+  obtain ⟨hwf', hspec⟩ := step_valid cfg impl c t hwf
+  have hv : valid (step cfg impl c t).1.fids k = true := by
+    rw [valid_iff_bound _ hwf'.pos, h1]; rfl
+  -- the table after the pre-reply part already has the binding
+  have h2 : Shrinks (pre cfg impl c t).c.fids (stepPost cfg impl c t).1.fids := by
+    unfold stepPost
+    split
+    · exact shrinks_refl _
+    · exact post_shrinks _ _ _
+  have h3 := shrinks_trans _ _ _ h2 (shrinks_decRefs (stepPost cfg impl c t).1.fids (pre cfg impl c t).held)
+  have hpre : userAt (pre cfg impl c t).c.fids k = some u := by
+    rw [step_fids] at h1
+    rcases h3 k with h4 | h4
+    · rw [h4] at h1; cases h1
+    · rw [← h4]; exact h1
+  rcases pre_new cfg impl c t k u hn hpre with ⟨e, he⟩ | h
+  · -- a refused request makes nothing valid
+    exfalso
+    have hrep : (step cfg impl c t).2.reply = .err e := by
+      rw [step_reply]; unfold stepRep; rw [he]
+    have := hspec k
+    rw [hv, hrep] at this
+    unfold specValid at this
+    cases t <;> simp [h0] at this
+  · exact h
+
+/-! non-vacuity: in the example history fid 2 is created by the walk from fid 1 and carries its user -/
+example : userAt (run exCfg (Conn.init exCfg)
+    [(.tattach 1 NOFID [] [] 7, okImpl), (.twalk 1 2 [[0x61]], okImpl), (.tclunk 1, okImpl)]).1.fids 2
+    = some 7 := by decide
 
 end G9.C04
